@@ -3,7 +3,7 @@ PROP = dict(
         tie_coq=["Properties/TieC06.v"],
         workloads=[
             dict(name="amm-pure", go_test="TestC06Pure", runner="C06",
-                 env=dict(quick=dict(VERIF_CASES=4000, VERIF_SMALL=4), thorough=dict(VERIF_CASES=60000, VERIF_SMALL=12))),
+                 env=dict(quick=dict(VERIF_CASES=4000, VERIF_SMALL=4), thorough=dict(VERIF_CASES=40000, VERIF_SMALL=10))),
             dict(name="amm-sequences", go_test="TestC06Seq", runner="C06",
                  env=dict(quick=dict(VERIF_CASES=250), thorough=dict(VERIF_CASES=5000))),
             dict(name="amm-ranged", go_test="TestC06Ranged", runner="C06",
@@ -11,7 +11,7 @@ PROP = dict(
         ],
         exhaustive_in=dict(thorough=True),
         rule="amm-pure: case = one call of the real amm.Deposit / amm.Withdraw / InitialPoolCoinSupply; first every (rx,ry,ps,x,y) in 0..S (ps=0 is the panic path) "
-             "and every withdrawal (rx,ry,ps in 0..S, pc<=ps, fee in {0,0.003,0.5,1}) with S=4 quick / S=12 thorough, then random operands of 1-133 bits incl. "
+             "and every withdrawal (rx,ry,ps in 0..S, pc<=ps, fee in {0,0.003,0.5,1}) with S=4 quick / S=10 thorough, then random operands of 1-133 bits incl. "
              "0, 1, 10^40, 10^40+-1, 2^133-1, powers of ten, thirds, offers in the pool's ratio, 2% malformed (negative, >200-bit, fee>1); non-trivial = the call minted shares / paid coins. "
              "amm-sequences: case = CreateBasicPool on random reserves then 5-40 deposits/withdrawals threaded exactly as ExecuteDepositRequest/ExecuteWithdrawRequest do "
              "(depleted -> fail, pc=0 -> fail, x=y=0 -> fail), incl. last-share redemptions, pc=ps-1, pc=ps+1, tiny deposits into big pools; non-trivial = at least one executed deposit and one executed withdrawal. "
